@@ -19,6 +19,20 @@ Record variants := { int_raises : bool;      (* old: per-axis all-'nearest' eval
 Definition current : variants := {| int_raises := false; mesh1_raises := false |}.
 Definition as_found : variants := {| int_raises := true; mesh1_raises := true |}.
 
+(* ---- calling conventions at the level of array SHAPES (no carrier involved) ----
+   nearest_/linear_/per_axis_interp(x) for a non-meshgrid x of shape [xshape] on a d-dimensional
+   grid: None = ValueError, Some [] = a scalar is returned, Some [N] = an array of N values.
+   _check_interp_input (regenerated: gen_check_array_input) reshapes / classifies / rejects;
+   _Interpolator.__call__ then does x.reshape([ndim, -1]) and out_shape_from_array (regenerated);
+   the factory applies .item() when the input denoted a single point. *)
+Definition array_call_shape (d : nat) (xshape : list nat) : option (list nat) :=
+  match gen_check_array_input d xshape with
+  | None => None
+  | Some (sh, is_scalar) =>
+      if is_scalar then Some []
+      else Some (gen_out_shape_from_array [d; (prodn sh / d)%nat])
+  end.
+
 Section Call.
 Context {T : Type} `{Num T}.
 
@@ -65,12 +79,6 @@ Definition mesh1 (i : input) : bool :=
    not the grid dimension, and an out array of the wrong shape or dtype *)
 Definition out_shape (i : input) : list nat :=
   match i with IPoints pts => [length pts] | IMesh m => map (@length T) m end.
-Fixpoint nats_eqb (a b : list nat) : bool :=
-  match a, b with
-  | [], [] => true
-  | x :: a', y :: b' => (x =? y)%nat && nats_eqb a' b'
-  | _, _ => false
-  end.
 (* the ordered `out` checks are REGENERATED from _Interpolator.__call__ (gen_out_check) *)
 Definition rejected (cvs : list (list T)) (i : input) (outarg : option (list nat * bool)) : option errkind :=
   let d := length cvs in
